@@ -63,7 +63,7 @@ func genC12(p *sim.Plan, r *sim.Rand, tier string) {
 		p.Ops = append(p.Ops, sim.Op{At: at, Actor: c, Kind: "connect", I: []int64{int64(c)}})
 		// events once connected (times relative to the plan start; sent only if connected)
 		for k := 0; k < r.Range(0, 6); k++ {
-			p.Ops = append(p.Ops, sim.Op{At: at + int64(r.Range(500, 3000))*1_000_000, Actor: c, Kind: "event", I: []int64{int64(c), int64(r.Intn(4)), int64(c*100 + k)}})
+			p.Ops = append(p.Ops, sim.Op{At: at + int64(r.Range(500, 3000))*1_000_000, Actor: c, Kind: "event", I: []int64{int64(c), int64(r.Intn(6)), int64(c*100 + k)}})
 		}
 	}
 	for b := 0; b < r.Range(0, 12); b++ {
@@ -182,6 +182,9 @@ func runC12(e *sim.Env) {
 			if name == "bad" {
 				return errors.New("event rejected")
 			}
+			if name == "cont" && strings.Contains(fmt.Sprint(v), "-") {
+				return errors.New("event rejected for its content")
+			}
 			return nil
 		})
 		s.Socket.OnError(func(err error) {
@@ -198,6 +201,7 @@ func runC12(e *sim.Env) {
 		s.Socket.OnEvent("num", func(n int, a string) { rec("num", n, a) })
 		s.Socket.OnEvent("ackd", func(a string, n int, ack func(int)) { rec("ackd", a, n); ack(n) })
 		s.Socket.OnEvent("bad", func(a string, n int) { rec("bad", a, n) })
+		s.Socket.OnEvent("cont", func(a string, n int) { rec("cont", a, n) })
 	}
 	srv = w.StartServer(world.ServerOpts{PingInterval: 25 * time.Second, PingTimeout: 20 * time.Minute, UpgradeTimeout: 20 * time.Minute, Configure: configure})
 
@@ -274,8 +278,14 @@ func runC12(e *sim.Env) {
 						clients[c].Socket.Emit("num", n, fmt.Sprintf("s%d", n))
 					case 2:
 						clients[c].Socket.Emit("ackd", fmt.Sprintf("s%d", n), n, func(int) {})
-					default:
+					case 3:
 						clients[c].Socket.Emit("bad", fmt.Sprintf("s%d", n), n)
+					case 4:
+						// the client asks for an acknowledgement, the handler does not take one
+						clients[c].Socket.Emit("str", fmt.Sprintf("s%d", n), n, func() {})
+					default:
+						// rejected for its content (the last argument), emitted with an acknowledgement callback
+						clients[c].Socket.Emit("cont", fmt.Sprintf("s%d", n), -n-1, func() {})
 					}
 				}
 			}
@@ -403,19 +413,22 @@ func runC12(e *sim.Env) {
 			if em.c != c {
 				continue
 			}
-			name := []string{"str", "num", "ackd", "bad"}[em.kind]
+			name := []string{"str", "num", "ackd", "bad", "str", "cont"}[em.kind]
 			var args string
-			if em.kind == 1 {
+			switch em.kind {
+			case 1:
 				args = fmt.Sprint([]any{em.n, fmt.Sprintf("s%d", em.n)})
-			} else {
+			case 5:
+				args = fmt.Sprint([]any{fmt.Sprintf("s%d", em.n), -em.n - 1})
+			default:
 				args = fmt.Sprint([]any{fmt.Sprintf("s%d", em.n), em.n})
 			}
 			mwAt, hAt := int64(-1), int64(-1)
-			mwName := ""
+			mwName, mwArgs := "", ""
 			for _, r := range log {
 				if r.what == "mw" && strings.Contains(r.args, fmt.Sprintf("s%d ", em.n)) || r.what == "mw" && strings.Contains(r.args, fmt.Sprintf(" s%d", em.n)) || r.what == "mw" && r.name == fmt.Sprintf("s%d", em.n) {
 					if mwAt < 0 {
-						mwAt, mwName = r.at, r.name
+						mwAt, mwName, mwArgs = r.at, r.name, r.args
 					}
 				}
 				if r.what == "handler" && r.name == name && r.args == args {
@@ -431,7 +444,11 @@ func runC12(e *sim.Env) {
 			if mwName != name {
 				e.Violate("C12/event-middleware-wrong-name", esig, "client %d emitted event %q with arguments %s: the event middleware was called with name %q", c, name, args, mwName)
 			}
-			if name == "bad" {
+			// the arguments: all of them (a handler with an acknowledgement function adds its placeholder)
+			if mwArgs != args && !(em.kind == 2 && strings.HasPrefix(mwArgs, strings.TrimSuffix(args, "]"))) {
+				e.Violate("C12/event-middleware-wrong-arguments", esig, "client %d emitted %s%s: the event middleware was called with the arguments %s", c, name, args, mwArgs)
+			}
+			if name == "bad" || name == "cont" {
 				evRejected++
 				if hAt >= 0 {
 					e.Violate("C12/rejected-event-reached-handler", esig, "client %d: event %q was rejected by the event middleware and its handler still ran", c, name)
